@@ -8,6 +8,8 @@ CONSTANTS
   MaxEnv = 3
   ForeignAt = "none"
   RenderFails = TRUE
+  CacheMisses = FALSE
+  VerBumps = TRUE
   FailKinds = {}
 VIEW view
 ACTION_CONSTRAINT Emit
